@@ -578,7 +578,7 @@ static int run_batch(Property *p, bool thorough, uint64_t seed, int jobs, double
                               (unsigned long long)mix64(a.res.trace_hash ^ std::hash<std::string>()(minp.dump())));
     { std::ofstream o(path); o << minp.dump(1, ' ', false, json::error_handler_t::replace) << "\n"; }
     // fresh-process gate
-    std::string cmd = strfmt("%s/build/simcheck %s --replay %s >/dev/null 2>&1", VERIF_DIR, p->id.c_str(), path.c_str());
+    std::string cmd = strfmt("timeout 300 %s/build/simcheck %s --replay %s >/dev/null 2>&1", VERIF_DIR, p->id.c_str(), path.c_str());   // a hang must not hang the batch
     int sc = system(cmd.c_str());
     int ec = WIFEXITED(sc) ? WEXITSTATUS(sc) : -1;
     if (!(ec == 1 || (crash && (ec == 77 || ec == -1 || ec == 134)))) {
